@@ -453,7 +453,11 @@ func (cs *Contracts) LoadFile(path, pkg string) error {
 			i := strings.Index(rest, ":")
 			ifc := strings.TrimSpace(rest[:i])
 			for _, t := range strings.Split(rest[i+1:], ",") {
-				cs.Impls[ifc] = append(cs.Impls[ifc], qualifyType(pkg, strings.TrimSpace(t)))
+				t = strings.TrimSpace(t)
+				if t != "other" {
+					t = qualifyType(pkg, t)
+				}
+				cs.Impls[ifc] = append(cs.Impls[ifc], t)
 			}
 		default:
 			cs.errf(path, it.line, "unknown directive %q", kw)
